@@ -76,7 +76,7 @@ CLAIMED = {
    technique="TLA+ spec GBStats model-checked with TLC + trace validation (Trace_GBCore, Trace_GBApply, Trace_GBCompose)",
    ref="DESIGN.md section 6/C16"),
  "C03": dict(
-   text="One logical call is driven through every execution strategy (thresholds scaled to 2/4 rows: chunk-wise, monotone and partially monotone key routes; 1..4 threads; keys/values as arrow ChunkedArrays incl. misaligned chunks) and each run is validated by TLC against the same GBCore machine, so all strategies agree; TLC explores every completion order of the pool (GBParallel) and block merge (GBReduce); every completion order of 2..4 tasks is forced in the real ThreadPoolExecutor and validated as a trace; scaled replays at the real 1,000,000-row switch-over are validated through the blow-up law (a TLC invariant of GBCore).  The chunked-key block pipeline is its own machine (GBChunked: Arrow's slice of the code array, first-chunk search, one task per piece, merge through the pointer tables with counts; invariants MergedIsDef, PointerAligned, PartialIsPieceDef, 5 negative configurations) and every real reduction on chunked keys is replayed through it with the per-piece partials logged by hook H6 and count_ikey; the pool model (GBParallel) also covers the inline single-task path, FIFO start under a worker bound, raising tasks (first exception met is re-raised), parallel_reduce and termination, each bound by forced-schedule traces; in the other direction every terminal state TLC reaches in GBParallel and (a sample of) the terminal states of GBChunked are dumped by TLC and replayed into the real pool / a real grouping, which must end in the state's values.",
+   text="One logical call is driven through every execution strategy (thresholds scaled to 2/4 rows: chunk-wise, monotone and partially monotone key routes; 1..4 threads; keys/values as arrow ChunkedArrays incl. misaligned chunks) and each run is validated by TLC against the same GBCore machine, so all strategies agree; TLC explores every completion order of the pool (GBParallel) and block merge (GBReduce); every completion order of 2..4 tasks is forced in the real ThreadPoolExecutor and validated as a trace; scaled replays at the real 1,000,000-row switch-over are validated through the blow-up law (a TLC invariant of GBCore).  The chunked-key block pipeline is its own machine (GBChunked: Arrow's slice of the code array, first-chunk search, one task per piece, merge through the pointer tables with counts; invariants MergedIsDef, PointerAligned, PartialIsPieceDef, 5 negative configurations) and every real reduction on chunked keys is replayed through it with the per-piece partials logged by hook H6 and count_ikey; the pool model (GBParallel) also covers the inline single-task path, FIFO start under a worker bound, raising tasks (first exception met is re-raised), parallel_reduce and termination, each bound by forced-schedule traces; in the other direction every terminal state TLC reaches in GBParallel and (a sample of) the terminal states of GBChunked are dumped by TLC and replayed into the real pool / a real grouping, which must end in the state's values.  Supplement: TLAPS proves Spec => []GatheredByIndex for an unbounded number of tasks (spec/proofs/GBGatherProof.tla, 30 obligations, re-proved by every run).",
    note="trusted: harness-side scheduler (subclass of the real ThreadPoolExecutor), threshold scaling via the module global and hook H3, projections",
    technique="TLA+ specs GBParallel/GBReduce/GBCore/GBChunked model-checked with TLC (safety + one liveness property) + trace validation of strategy-product runs, chunk-pipeline runs with hook-logged partials, forced pool schedules and scaled replays",
    ref="DESIGN.md section 6/C03"),
@@ -160,8 +160,8 @@ m = {
            "source_commits": hook_commits, "add_only": True},
  "engines": [{"name": "tlc", "path": "/opt/veriftools/tla/tla2tools.jar", "serves_properties": sorted(CLAIMED),
               "kind_free_text": "TLA+ specifications under /verif/spec model-checked with TLC; real executions validated as traces against the same specifications"},
-             {"name": "tlapm", "path": "/opt/veriftools/tlapm", "serves_properties": ["C04"],
-              "kind_free_text": "TLA+ proof system: spec/proofs/GBMergeLemmas.tla (merge algebra of the block law over unbounded integers), a supplement to the TLC claim of C04"}],
+             {"name": "tlapm", "path": "/opt/veriftools/tlapm", "serves_properties": ["C03", "C04"],
+              "kind_free_text": "TLA+ proof system: spec/proofs/GBMergeLemmas.tla (merge algebra of the block law over unbounded integers, C04) and spec/proofs/GBGatherProof.tla (parallel_map gathers by index for any number of tasks and any completion order: inductive invariant, C03); supplements to the TLC claims"}],
  "checks": [], "not_applicable": [],
  "notes": "Model-based verification with explicit TLA+ specifications (see DESIGN.md). exit 0 = held, 1 = VIOLATION line, 2 = machinery failure.",
 }
